@@ -149,21 +149,22 @@ def inputsGo {F} (o : NumOracle F) (add : Bool) : List Col → List Str → M (L
       pure (addState add c feature :: cs', v :: vs)
   | cs, _ => pure (cs, [])
 
+/-- column 0 of `to_example`: the output value, the class map and the column afterwards -/
+def outputOf {F} (o : NumOracle F) (classes : ClassMap) (c0 : Col) (v0 : Str) (add : Bool) :
+    M (Val F × ClassMap × Col) :=
+  if c0.dom = .void then pure (Val.void, classes, c0)
+  else if !isNumber o v0 then
+    pure (Val.int (encode classes (trim v0)).1, (encode classes (trim v0)).2, addState add c0 (trim v0))
+  else
+    convert o c0.dom (trim v0) >>= fun x => pure (x, classes, addState add c0 (trim v0))
+
 /-- `dataframe::to_example` (requires `v.size() == columns.size()`, checked by `read_record`) -/
 def toExample {F} (o : NumOracle F) (df : DF F) (v : List Str) (add : Bool) : M (DF F × Example F) :=
   match df.cols, v with
-  | c0 :: cs, v0 :: vs => do
-    let feature := trim v0
-    let (out, classes', c0') ←
-      if c0.dom = .void then pure (Val.void, df.classes, c0)
-      else if !isNumber o v0 then
-        let (id, m) := encode df.classes feature
-        pure (Val.int id, m, addState add c0 feature)
-      else do
-        let x ← convert o c0.dom feature
-        pure (x, df.classes, addState add c0 feature)
-    let (cs', ins) ← inputsGo o add cs vs
-    pure ({ df with cols := c0' :: cs', classes := classes' }, { input := ins, output := out })
+  | c0 :: cs, v0 :: vs =>
+    outputOf o df.classes c0 v0 add >>= fun r =>
+    inputsGo o add cs vs >>= fun q =>
+    pure ({ df with cols := r.2.2 :: q.1, classes := r.2.1 }, { input := q.2, output := r.1 })
   | _, _ => pure (df, {})
 
 /-- `dataframe::read_record` -/
@@ -251,11 +252,10 @@ def csvStep {F} (cfg : Cfg) (o : NumOracle F) (outIdx : Option Nat) (hasHdr : Bo
 
 /-- `read_csv` once the records are known -/
 def readCsvRecs {F} (cfg : Cfg) (o : NumOracle F) (outIdx : Option Nat) (hasHdr : Bool)
-    (recs : List (List Str)) : M (DF F) := do
-  let st ← recs.foldlM (csvStep cfg o outIdx hasHdr) {}
-  let v ← isValid st.df
-  if !v || st.df.examples.isEmpty then throw (.exc .insufficientData)
-  pure st.df
+    (recs : List (List Str)) : M (DF F) :=
+  recs.foldlM (csvStep cfg o outIdx hasHdr) {} >>= fun st =>
+  isValid st.df >>= fun v =>
+  if !v || st.df.examples.isEmpty then throw (.exc .insufficientData) else pure st.df
 
 /-- `dataframe::read_csv(std::istream &, params)` on a fresh dataframe -/
 def readCsv {F} (cfg : Cfg) (o : NumOracle F) (p : Params) (bytes : Str) : M (DF F) :=
@@ -289,44 +289,47 @@ structure XSt where
   outputIndex : Nat := 0
   index : Nat := 0
 
-def xAttrStep (st : XSt) (a : XAttr) : M XSt := do
-  let mut ty := a.type
-  let mut st := st
-  if a.cls then
-    st := { st with nOutput := st.nOutput + 1, outputIndex := st.index }
-    if st.nOutput > 1 then throw (.exc .dataFormat)
-    if ty = "nominal".toList || ty = "string".toList then ty := "numeric".toList
-  let states := if ty = "nominal".toList then a.labels.foldl setInsert [] else []
-  let c : Col := { name := a.name, dom := fromWeka ty, states := states }
-  pure { st with cols := if a.cls then c :: st.cols else st.cols ++ [c], index := st.index + 1 }
+/-- one `<attribute>`: `++n_output; output_index = index;` and the "multiple output columns"
+    exception for a class attribute, nominal / string class attributes become numeric, the column
+    goes to the front when it is the class attribute -/
+def xAttrStep (st : XSt) (a : XAttr) : M XSt :=
+  let nOut := if a.cls then st.nOutput + 1 else st.nOutput
+  if a.cls && nOut > 1 then throw (.exc .dataFormat)
+  else
+    let ty := if a.cls && (a.type = "nominal".toList || a.type = "string".toList) then "numeric".toList
+              else a.type
+    let states := if ty = "nominal".toList then a.labels.foldl setInsert [] else []
+    let c : Col := { name := a.name, dom := fromWeka ty, states := states }
+    pure { cols := if a.cls then c :: st.cols else st.cols ++ [c], nOutput := nOut,
+           outputIndex := if a.cls then st.index else st.outputIndex, index := st.index + 1 }
 
+/-- one `<instance>`: filter, rotation (fix: only when the instance has a value `k`; otherwise
+    `read_record` rejects it), `read_record` -/
 def xInstStep {F} (cfg : Cfg) (o : NumOracle F) (filter : List Str → Bool) (k : Nat)
-    (df : DF F) (record : List Str) : M (DF F) := do
+    (df : DF F) (record : List Str) : M (DF F) :=
   if !filter record then pure df
   else
-    let rec' ← if cfg.guards && k ≥ record.length then pure record     -- fix: no rotation,
-               else rotate? .rotateXrff record k                       -- read_record rejects it
+    (if cfg.guards && k ≥ record.length then pure record else rotate? .rotateXrff record k) >>= fun rec' =>
     readRecord o df rec' false
 
 /-- `read_xrff`: the dataframe and the returned count (before the fix: `0` and an inconsistent
-    dataframe when `is_valid()` fails) -/
+    dataframe when `is_valid()` fails; after it: `exception::insufficient_data`) -/
 def readXrff {F} (cfg : Cfg) (o : NumOracle F) (filter : List Str → Bool) : XDoc → M (DF F × Nat)
   | .parseError => throw (.exc .dataFormat)
   | .noAttributes => throw (.exc .dataFormat)
-  | .doc attrs instances => do
-    let st ← attrs.foldlM xAttrStep {}
+  | .doc attrs instances =>
+    attrs.foldlM xAttrStep {} >>= fun st =>
     if st.cols.isEmpty then throw (.exc .dataFormat)
-    let (cols, k) :=
-      if st.nOutput = 0 then
-        (st.cols.getLast?.toList ++ st.cols.dropLast, st.index - 1)
-      else (st.cols, st.outputIndex)
-    match instances with
-    | none => throw (.exc .dataFormat)
-    | some insts =>
-      let df ← insts.foldlM (xInstStep cfg o filter k) { cols := cols }
-      let v ← isValid df
-      if cfg.guards && !v then throw (.exc .insufficientData)      -- fix: as read_csv does
-      pure (df, if v then df.examples.length else 0)
+    else
+      let cols := if st.nOutput = 0 then st.cols.getLast?.toList ++ st.cols.dropLast else st.cols
+      let k := if st.nOutput = 0 then st.index - 1 else st.outputIndex
+      match instances with
+      | none => throw (.exc .dataFormat)
+      | some insts =>
+        insts.foldlM (xInstStep cfg o filter k) { cols := cols } >>= fun df =>
+        isValid df >>= fun v =>
+        if cfg.guards && !v then throw (.exc .insufficientData)
+        else pure (df, if v then df.examples.length else 0)
 
 /-! ### `category_set`, `setup_terminals`, variables -/
 
